@@ -5,6 +5,8 @@ package server
 // detector, the binary is built with -race) and a fake runner. DESIGN.md §3 C15.
 
 import (
+	"strconv"
+	"regexp"
 	"bytes"
 	"context"
 	"encoding/json"
@@ -246,7 +248,11 @@ func c15Run(c c15Case) (classes []string, nontrivial bool, err error) {
 		g := c04GGUFs[i%len(c04GGUFs)]
 		do("POST", "/api/blobs/"+frDigest(g), g)
 		if code, body := do("POST", "/api/create", map[string]any{"model": name, "files": map[string]string{"m.gguf": frDigest(g)}, "stream": false,
-			"template": "{{ .System }} {{ .Prompt }}"}); code != 200 {
+			"template": "{{ .System }} {{ .Prompt }}", "system": "be brief", "license": "L" + fmt.Sprint(i),
+			// MESSAGE and PARAMETER entries: per-model slices and maps that every request for the model reads (and chat / show
+			// extend) - they must not be shared between requests
+			"messages":   []map[string]string{{"role": "user", "content": "q1"}, {"role": "assistant", "content": "a1"}, {"role": "user", "content": "q2"}}[:1+2*(i%2)],
+			"parameters": map[string]any{"temperature": 0.5, "stop": []string{"<stop>"}}}); code != 200 {
 			return nil, false, fmt.Errorf("set-up create of %s failed: %d %s", name, code, body)
 		}
 	}
@@ -272,7 +278,7 @@ func c15Run(c c15Case) (classes []string, nontrivial bool, err error) {
 		wg.Add(1)
 		go func(ci int, reqs []c15Req) {
 			defer wg.Done()
-			for _, r := range reqs {
+			for ri, r := range reqs {
 				name := c15Models[r.Model%len(c15Models)]
 				extra := c15Extra[r.To%len(c15Extra)]
 				keep := c15Keep[r.Keep%len(c15Keep)]
@@ -329,7 +335,12 @@ func c15Run(c c15Case) (classes []string, nontrivial bool, err error) {
 				case "tags":
 					code, body = do("GET", "/api/tags", nil)
 				case "show":
-					code, body = do("POST", "/api/show", map[string]any{"model": name})
+					sreq := map[string]any{"model": name}
+					if (ci+ri)%2 == 1 { // the rarely used per-request overrides of show
+						sreq["options"] = map[string]any{"temperature": float64(ci), "seed": ri}
+						sreq["system"] = fmt.Sprint("sys ", ci)
+					}
+					code, body = do("POST", "/api/show", sreq)
 				case "create":
 					g := c04GGUFs[r.GGUF%len(c04GGUFs)]
 					do("POST", "/api/blobs/"+frDigest(g), g)
@@ -469,8 +480,20 @@ var c15KnownRaces = map[string]string{ // signature substring -> known finding n
 	"read in server.(*Scheduler).filterGPUsWithoutLoadingModels <-> write in server.(*Scheduler).load.func1": "sched-runner-fields-read-without-refmu",
 }
 
+// c15RunnerFields: the fields of runnerRef (sched.go); a race signature names the one both racing source lines mention.
+var c15RunnerFields = []string{"refCount", "llama", "loading", "gpus", "estimatedVRAM", "estimatedTotal", "sessionDuration", "expireTimer",
+	"expiresAt", "model", "modelPath", "numParallel", "Options"}
+
+// c15KnownRaceFields: the fields the listed finding is about; a race on another field between the same functions is new.
+var c15KnownRaceFields = map[string]bool{"expiresAt": true, "sessionDuration": true, "loading": true, "gpus": true}
+
+var c15FieldRe = regexp.MustCompile(`\.([A-Za-z_][A-Za-z0-9_]*)`)
+
+// c15RaceSig: "read in F [line tokens] <-> write in G [line tokens] {field}": the innermost ollama function of each
+// access, and the runnerRef field that both racing source lines mention ({} if none or the source cannot be read).
 func c15RaceSig(report string) string {
 	var tops []string
+	var toks []map[string]bool
 	for _, blk := range strings.Split(report, "\n\n") {
 		head := strings.SplitN(strings.TrimSpace(blk), "\n", 2)[0]
 		if !(strings.Contains(head, "by goroutine") || strings.Contains(head, "by main goroutine")) {
@@ -481,17 +504,60 @@ func c15RaceSig(report string) string {
 			acc = "read"
 		}
 		top := "?"
-		for _, l := range strings.Split(blk, "\n") {
+		fields := map[string]bool{}
+		lines := strings.Split(blk, "\n")
+		for i, l := range lines {
 			l = strings.TrimSpace(l)
 			if strings.HasPrefix(l, "github.com/ollama/ollama/") && !strings.Contains(l, "zz_verif") && !strings.Contains(l, ".c15") && !strings.Contains(l, ".c04") {
 				top = strings.TrimSuffix(strings.TrimPrefix(l, "github.com/ollama/ollama/"), "()")
+				if i+1 < len(lines) { // "      /path/file.go:123 +0x1f"
+					loc := strings.Fields(strings.TrimSpace(lines[i+1]))
+					if len(loc) > 0 {
+						if j := strings.LastIndexByte(loc[0], ':'); j > 0 {
+							n, _ := strconv.Atoi(loc[0][j+1:])
+							if src, err := os.ReadFile(loc[0][:j]); err == nil && n > 0 {
+								if sl := strings.Split(string(src), "\n"); n <= len(sl) {
+									for _, m := range c15FieldRe.FindAllStringSubmatch(sl[n-1], -1) {
+										fields[m[1]] = true
+									}
+								}
+							}
+						}
+					}
+				}
 				break
 			}
 		}
 		tops = append(tops, acc+" in "+top)
+		toks = append(toks, fields)
+	}
+	var common []string
+	if len(toks) == 2 {
+		for _, f := range c15RunnerFields {
+			if toks[0][f] && toks[1][f] {
+				common = append(common, f)
+			}
+		}
 	}
 	sort.Strings(tops)
-	return strings.Join(tops, " <-> ")
+	return strings.Join(tops, " <-> ") + " {" + strings.Join(common, ",") + "}"
+}
+
+// c15RaceIsKnown: the function pair is one of the listed finding's and the field both lines mention is one of its fields.
+func c15RaceIsKnown(sig, sub string) bool {
+	if !strings.Contains(sig, sub) {
+		return false
+	}
+	i, j := strings.LastIndexByte(sig, '{'), strings.LastIndexByte(sig, '}')
+	if i < 0 || j <= i+1 {
+		return false
+	}
+	for _, f := range strings.Split(sig[i+1:j], ",") {
+		if !c15KnownRaceFields[f] {
+			return false
+		}
+	}
+	return true
 }
 
 // c15NewRaces returns the reports written since the last call.
@@ -520,9 +586,15 @@ func c15CheckRaces(rec *vfkit.Recorder, strict bool) error {
 	time.Sleep(5 * time.Millisecond) // the detector writes its report from the racing goroutine; budget only
 	for _, rep := range c15NewRaces() {
 		sig := c15RaceSig(rep)
+		if lf := os.Getenv("C15_LIST_ALL"); lf != "" { // development aid: every signature, listed finding or not
+			if f, err := os.OpenFile(lf, os.O_APPEND|os.O_CREATE|os.O_WRONLY, 0o644); err == nil {
+				fmt.Fprintf(f, "RACE-SIG %s\n", sig)
+				f.Close()
+			}
+		}
 		known := ""
 		for sub, name := range c15KnownRaces {
-			if strings.Contains(sig, sub) && rec.Known(name) && !strict {
+			if c15RaceIsKnown(sig, sub) && rec.Known(name) && !strict {
 				known = name
 			}
 		}
@@ -530,8 +602,11 @@ func c15CheckRaces(rec *vfkit.Recorder, strict bool) error {
 			rec.Excluded(known)
 			continue
 		}
-		if os.Getenv("C15_LIST_ONLY") != "" { // development aid: list every distinct race instead of stopping at the first
-			fmt.Printf("RACE-SIG %s\n", sig)
+		if lf := os.Getenv("C15_LIST_ONLY"); lf != "" { // development aid: list every race (to that file) instead of stopping at the first
+			if f, err := os.OpenFile(lf, os.O_APPEND|os.O_CREATE|os.O_WRONLY, 0o644); err == nil {
+				fmt.Fprintf(f, "RACE-SIG %s\n", sig)
+				f.Close()
+			}
 			continue
 		}
 		if len(rep) > 5000 {
